@@ -268,7 +268,7 @@ def eval_expr(c, val):
     return None
 
 
-def symbolic_walk(fn, start, val, stop, max_steps=400):
+def symbolic_walk(fn, start, val, stop, max_steps=400, unknown=None):
     """Follow the single path from block `start` that the assignment `val`
     (expr -> int|None for leaves) selects.  Local assignments of evaluable values
     are remembered.  stop(block, event|None) -> label ends the walk.  Returns
@@ -309,6 +309,8 @@ def symbolic_walk(fn, start, val, stop, max_steps=400):
         succs = blk['succs']
         if t and t.get('cond') is not None and len(succs) == 2:
             x = eval_expr(t['cond'], v2)
+            if x is None and unknown is not None:
+                x = unknown(blk)
             if x is None:
                 raise AnalysisBroken('%s: cannot evaluate branch condition %s at line %s' % (
                     fn.name, estr(t['cond']), t.get('line')))
